@@ -253,9 +253,12 @@ theorem exec_inv {c : FxVerif.Gen.C11.Cfg} (hg : good c = true) {s s' : State} {
     · cases h; exact ⟨hi, rfl⟩
   | transfer f t v x =>
     simp only [State.exec] at h
+    rw [transferTx_eq hg] at h
     exact transferOp_inv hg hi h
   | transferFrom sp f t v x =>
     simp only [State.exec] at h
+    rw [transferFromTx_eq hg] at h
+    simp only [State.transferFromRef] at h
     split at h
     · cases h
     · split at h
@@ -409,7 +412,9 @@ theorem allowance_exact {s s' : State} {sp f t v x : Nat} (h : s.exec cfg (.tran
   generalize cfg = c
   intro h hg
   obtain ⟨-, -, -, -, -, -, -, -, -, -, -, g12, g13, -⟩ := good_fields hg
-  simp only [State.exec, g12, g13, Bool.true_and, decide_eq_true_eq, if_true] at h
+  simp only [State.exec] at h
+  rw [transferFromTx_eq hg] at h
+  simp only [State.transferFromRef, g12, g13, Bool.true_and, decide_eq_true_eq, if_true] at h
   split at h
   · cases h
   · split at h
@@ -688,11 +693,14 @@ theorem transfer_never_breaks_bookkeeping (nAcc h0 : Nat) (vals : List (Nat × N
   constructor
   · intro h
     simp only [State.exec] at h
+    rw [transferTx_eq cfg_good] at h
     exact transferOp_refusal hi h
   · intro h
     have hg := cfg_good
     obtain ⟨-, -, -, -, -, -, -, -, -, -, -, g12, g13, -⟩ := good_fields hg
     simp only [State.exec] at h
+    rw [transferFromTx_eq hg] at h
+    simp only [State.transferFromRef] at h
     split at h
     · cases h; exact Or.inl rfl
     · split at h
@@ -785,10 +793,13 @@ theorem transfer_leaves_chain_unchanged {s s' : State} {sp f t v x : Nat} :
   constructor
   · intro h
     simp only [State.exec] at h
+    rw [transferTx_eq cfg_good] at h
     obtain ⟨a1, a2, a3, a4, a5, a6, a7, a8, a9, a10, a11, a12, a13, rf, rt, b1, b2, b3⟩ := transferOp_frame cfg_good h
     exact ⟨⟨a1, a2, a3, a4, a5, a6, a7, a8, a10, a11, a12, a13, rf, rt, b1, b3, b2⟩, a9⟩
   · intro h
     simp only [State.exec] at h
+    rw [transferFromTx_eq cfg_good] at h
+    simp only [State.transferFromRef] at h
     split at h
     · cases h
     · split at h
@@ -799,6 +810,66 @@ theorem transfer_leaves_chain_unchanged {s s' : State} {sp f t v x : Nat} :
           · cases h
           · obtain ⟨a1, a2, a3, a4, a5, a6, a7, a8, a9, a10, a11, a12, a13, rf, rt, b1, b2, b3⟩ := transferOp_frame cfg_good h
             exact ⟨a1, a2, a3, a4, a5, a6, a7, a8, a10, a11, a12, a13, rf, rt, b1, b3, b2⟩
+
+/-! ### the two Run methods as written: regenerated native actions, interpreted by `State.exec` -/
+
+/-- **run_methods_as_written.**  `State.exec` INTERPRETS the statement lists `cfg.runTransfer` / `cfg.runFrom` that
+`go/extract/c11run.go` regenerates from the closures `TransferShares.Run` / `TransferFromShares.Run` hand to
+`ExecuteNativeAction` (which call, for whom, with which validator and amount, whether its error is handed back, in which
+order, under which condition).  For the code as it is now this interpretation IS: `transferShares` = the handler run for
+`contract.Caller()`; `transferFromShares` = the allowance of `(validator, args.From, caller)` is checked and decremented
+FIRST and UNCONDITIONALLY (also when `from == to`, also when the handler later moves nothing), THEN the handler runs for
+`args.From`.  Every theorem of this file about `.transfer` / `.transferFrom` goes through this equation, so a call that is
+wrapped in a condition, dropped, reordered, made for another party or whose error is swallowed breaks `cfg_good`. -/
+theorem run_methods_as_written (s : State) (sp f t v x : Nat) :
+    s.exec cfg (.transfer f t v x) = s.transferOp cfg f t v x ∧
+    s.exec cfg (.transferFrom sp f t v x) = s.transferFromRef cfg sp f t v x :=
+  ⟨by simp only [State.exec]; exact transferTx_eq cfg_good s f t v x,
+   by simp only [State.exec]; exact transferFromTx_eq cfg_good s sp f t v x⟩
+
+/-- **transferFrom_needs_allowance.**  Whatever the state, the parties (`from == to` included) and whatever the handler
+would do: `transferFromShares` of more shares than the spender's allowance fails (and is reverted as a whole). -/
+theorem transferFrom_needs_allowance {s : State} {sp f t v x : Nat} (h : s.allow v f sp < x) :
+    ∃ e, s.exec cfg (.transferFrom sp f t v x) = .error e ∧ (e = .badArgs ∨ e = .allowance) := by
+  have hg := cfg_good
+  rw [(run_methods_as_written s sp f t v x).2]
+  revert hg
+  generalize cfg = c
+  intro hg
+  obtain ⟨-, -, -, -, -, -, -, -, -, -, -, g12, g13, -⟩ := good_fields hg
+  simp only [State.transferFromRef, g12, g13, Bool.true_and, decide_eq_true_eq, if_true]
+  split
+  · exact ⟨_, rfl, Or.inl rfl⟩
+  · split
+    · exact ⟨_, rfl, Or.inl rfl⟩
+    · first
+        | exact ⟨_, rfl, Or.inr rfl⟩
+        | (rw [if_pos h]; exact ⟨_, rfl, Or.inr rfl⟩)
+
+/-- **transferFrom_self_consumes_allowance.**  A successful `transferFromShares` with `from == to` changes nothing but the
+spender's allowance: every validator record (delegations, starting infos, reference counts, rewards) and every account's
+gains are as before, while the allowance was sufficient and went down by exactly `x` — a spender cannot use a
+self-transfer to act without, or to keep, its allowance. -/
+theorem transferFrom_self_consumes_allowance {s s' : State} {sp d v x : Nat}
+    (h : s.exec cfg (.transferFrom sp d d v x) = .ok s') :
+    (∀ w, s'.vs w = s.vs w) ∧ (∀ a, s'.gain a = s.gain a) ∧ x ≤ s.allow v d sp ∧ s'.allow v d sp = s.allow v d sp - x := by
+  obtain ⟨hle, hal, _⟩ := allowance_exact h
+  obtain ⟨_, _, _, hw, v', rf, rt, ht, hv'⟩ := transferFrom_exec cfg_good h
+  obtain ⟨hvv, hrf, hrt⟩ := transfer_self cfg_good ht
+  have hfr := (transfer_leaves_chain_unchanged (sp := sp)).2 h
+  refine ⟨?_, ?_, hle, hal⟩
+  · intro w
+    by_cases hwv : w = v
+    · subst hwv; rw [hv', hvv]
+    · exact hw w hwv
+  · obtain ⟨_, _, _, _, _, _, _, _, _, _, _, _, rf', rt', _, hpaid, hgain⟩ := hfr
+    have hp : (s'.vs v).paid = (s.vs v).paid := by rw [hv', hvv]
+    have h0 : rf' + rt' = 0 := by omega
+    have hrf' : rf' = 0 := by omega
+    have hrt' : rt' = 0 := by omega
+    intro a
+    rw [hgain, hrf', hrt']
+    by_cases e : a = d <;> simp [setAt, e]
 
 /-! ### transactions that make several precompile calls; partial maturity -/
 
@@ -1049,5 +1120,17 @@ example : incrPeriods 2 [⟨3, 5, effFraction 50000 1000000⟩, ⟨7, 9, effFrac
   ⟨by decide, by decide, trivial⟩
 example : quot36 333 950000 % ONE ≠ 0 ∧ effFraction 50000 1000000 = 50000000000000000 ∧ slashExact 50000 1000000 = true := by decide
 example : slashExact 100 (100000000000000000000 - 99) = false := by decide
+
+-- run_methods_as_written / transferFrom_needs_allowance / transferFrom_self_consumes_allowance: a spender with an allowance of
+-- 70 makes a self-transfer of account 1 (succeeds, the allowance is used up, the delegation is untouched); without an
+-- allowance the same call is refused
+example : isOk (((init 4 1 [(1000, 0)]).run cfg [.delegate 1 0 500, .approve 1 3 0 70, .block]).exec cfg (.transferFrom 3 1 1 0 70)) = true := by
+  decide
+example : ((init 4 1 [(1000, 0)]).run cfg [.delegate 1 0 500, .approve 1 3 0 70, .block, .transferFrom 3 1 1 0 70]).allow 0 1 3 = 0 ∧
+    (((init 4 1 [(1000, 0)]).run cfg [.delegate 1 0 500, .approve 1 3 0 70, .block, .transferFrom 3 1 1 0 70]).vs 0).del 1 = some (500 * ONE) := by
+  decide
+example : ((init 4 1 [(1000, 0)]).run cfg [.delegate 1 0 500, .block]).allow 0 1 3 < 70 ∧
+    isOk (((init 4 1 [(1000, 0)]).run cfg [.delegate 1 0 500, .block]).exec cfg (.transferFrom 3 1 1 0 70)) = false := by
+  decide
 
 end FxVerif.Props.C11
